@@ -228,6 +228,15 @@ func derivesFrom(v ssa.Value, pred func(ssa.Value) bool) bool {
 				if st, ok := r.(*ssa.Store); ok && st.Addr == ssa.Value(x) && walk(st.Val, d+1) {
 					return true
 				}
+				// element / field stores of a local array or struct (varargs arrays, composite literals)
+				switch a := r.(type) {
+				case *ssa.IndexAddr, *ssa.FieldAddr:
+					for _, rr := range refs(a.(ssa.Value)) {
+						if st, ok := rr.(*ssa.Store); ok && st.Addr == a.(ssa.Value) && walk(st.Val, d+1) {
+							return true
+						}
+					}
+				}
 			}
 		case *ssa.UnOp:
 			if x.Op == token.MUL {
